@@ -2,7 +2,7 @@
 # seedmatrix.sh: run every kept seeded change against the check of its own property (quick tier)
 # and against the extra checks listed below; results are recorded in seeded/<id>/meta.json.
 V="${VERIF_HOME:-/verif}"; cd "$V"
-declare -A extra=( [C01-1]=C08 [C04-2]=C08 [C05-3]=C04 [C06-2]=C08 [C06-3]=C08 [C12-1]=C09 [C07-2]=C09 [C13-3]=C06 [C14-1]=C20 [C11-1]=C07 [C13-4]=C08 [C13-6]=C08 [C20-6]=C14 [C08-6]=C06 [C18-6]=C17 [C12-6]=C06 [C10-5]=C07 [C10-6]=C12 [C07-4]=C06 )
+declare -A extra=( [C01-1]=C08 [C04-2]=C08 [C05-3]=C04 [C06-2]=C08 [C06-3]=C08 [C12-1]=C09 [C07-2]=C09 [C13-3]=C06 [C14-1]=C20 [C11-1]=C07 [C13-4]=C08 [C13-6]=C08 [C20-6]=C14 [C08-6]=C06 [C18-6]=C17 [C12-6]=C06 [C10-5]=C07 [C10-6]=C12 [C07-4]=C06 [C07-7]=C09 )
 for d in seeded/*/; do
   id=$(basename "$d"); prop=${id%%-*}
   [ -f "$d/patch.diff" ] || continue
